@@ -300,6 +300,25 @@ func judge(c *Case) *core.Verdict {
 		}
 	}
 	if c.Prop == "C06" {
+		// later uses: a second run over the same set instantiates every grouping again, with the same result
+		if errs2 := ms.Process(); len(errs2) > 0 {
+			return fail("second-run-differs", "a second Process of the same set reports %v", errs2)
+		}
+		for _, n := range names {
+			if m := ms.Modules[n]; m != nil {
+				o2 := Flatten(yang.ToEntry(m))
+				for p, a := range obs[n] {
+					if b, ok := o2[p]; !ok || fmt.Sprintf("%+v|%s", a.Fact, a.Imod) != fmt.Sprintf("%+v|%s", b.Fact, b.Imod) {
+						return fail("second-run-differs", "module %s path %s: first run %+v, second run %+v (present: %v)", n, p, a.Fact, func() any {
+							if ok {
+								return b.Fact
+							}
+							return nil
+						}(), ok)
+					}
+				}
+			}
+		}
 		// the copies do not depend on whether the uses statements are also recorded (ParseOptions.StoreUses)
 		ms2 := yang.NewModules()
 		ms2.ParseOptions.StoreUses = true
